@@ -14,6 +14,7 @@ import (
 	"fmt"
 	"go/ast"
 	"go/parser"
+	"go/printer"
 	"go/token"
 	"os"
 	"path/filepath"
@@ -537,6 +538,21 @@ func genAdvertise(repo string) *leanFile {
 			indexOf(calls, "a.schedule") >= 0 && indexOf(calls, "a.multicast") >= 0 &&
 				indexOf(calls, "l.Listen") >= 0 && indexOf(calls, "linkStateWatcher") >= 0,
 			"advertise() starts schedule, multicast, Listen, linkStateWatcher")
+	}
+
+	// sendGate protocol: the statements of enter() and close(), in order (printed source)
+	for _, fnName := range []string{"sendGate.enter", "sendGate.close", "sendGate.leave"} {
+		if fd := fl.fn(fnName); fd != nil {
+			var sts []string
+			for _, st := range fd.Body.List {
+				var b strings.Builder
+				printer.Fprint(&b, fset, st)
+				sts = append(sts, strings.Join(strings.Fields(b.String()), " "))
+			}
+			l.Strs("gate"+strings.Title(strings.TrimPrefix(fnName, "sendGate."))+"Stmts", sts, fnName+": statements in order")
+		} else {
+			failf("advertise.go: %s not found", fnName)
+		}
 	}
 
 	// every send on the request channel ipC (advertise's listener callback, multicast): is it a
@@ -1066,6 +1082,38 @@ func genServer(repo string) *leanFile {
 	if fd := fl.fn("Server.Serve"); fd != nil {
 		calls := callsIn(fd.Body)
 		l.Bool("serveWaitsAll", indexOf(calls, "eg.Wait") >= 0 && indexOf(calls, "wg.Wait") >= 0, "Serve: eg.Wait() for tasks, wg.Wait() before READY")
+	}
+	// BuildTasks: how every interface task is wired to the link watcher, the dialer and the
+	// terminator (argument expressions of the four calls, in source order)
+	if fd := fl.fn("Server.BuildTasks"); fd != nil {
+		args := map[string][]string{}
+		ast.Inspect(fd.Body, func(n ast.Node) bool {
+			c, ok := n.(*ast.CallExpr)
+			if !ok {
+				return true
+			}
+			name := exprString(c.Fun)
+			switch name {
+			case "s.w.Subscribe", "NewAdvertiser", "NewMonitor", "system.NewDialer":
+				var as []string
+				for _, a := range c.Args {
+					as = append(as, exprString(a))
+				}
+				if name == "system.NewDialer" {
+					name += ":" + as[len(as)-2]
+				}
+				args[name] = as
+			}
+			return true
+		})
+		for _, k := range []struct{ call, fact string }{
+			{"s.w.Subscribe", "subscribeArgs"}, {"NewAdvertiser", "newAdvertiserArgs"}, {"NewMonitor", "newMonitorArgs"},
+			{"system.NewDialer:system.Advertise", "advDialerArgs"}, {"system.NewDialer:system.Monitor", "monDialerArgs"}} {
+			if args[k.call] == nil {
+				failf("server.go: BuildTasks: call %s not found", k.call)
+			}
+			l.Strs(k.fact, args[k.call], "BuildTasks: arguments of "+k.call)
+		}
 	}
 	sf := load(repo, "internal/corerad/signals_unix.go")
 	if sf != nil {
